@@ -32,15 +32,25 @@ static long on_copy(const CH *t, long a, long b, CH *out, long o, int fix, int l
   return o;
 }
 
-/* does the plain dot-removal result of a relative-path reference need a "./" prefix to keep its meaning
- * (empty result, first segment empty, or first segment containing ':')?  The exact text in those cases is not fixed by
- * C08; C07/C09 constrain it instead. */
-static int on_relative_result_needs_prefix(const CH *p, long n, long orig_n){
-  long i;
-  if (n == 0) return orig_n > 0;
-  if (os_is(CHV(p[0]), '/')) return 1;
-  for (i = 0; i < n && !os_is(CHV(p[i]), '/'); i++) if (os_is(CHV(p[i]), ':')) return 1;
-  return 0;
+/* Classes of inputs whose plain dot-removal result cannot be written down as is without changing meaning; the exact
+ * normal form there is not pinned down by C08 (C07/C09 constrain it).  Bits of on_unspecified: */
+#define ON_CLS_DSLASH 1    /* no authority and the result path begins with "//" */
+#define ON_CLS_COLON  2    /* relative-path reference whose first result segment contains ':' (and the input was not simply "./x:y...") */
+#define ON_CLS_EMPTY  4    /* relative-path reference, non-empty path, empty result */
+#define ON_CLS_ABS    8    /* relative-path reference whose result begins with '/' */
+#define ON_CLS_ESSENTIAL 16 /* relative-path reference "./x:y...": the leading "." is essential and must stay */
+static int on_classify_relative(const CH *in, long in_n, const CH *p, long n){
+  long i; int colon = 0;
+  if (n == 0) return in_n > 0 ? ON_CLS_EMPTY : 0;
+  if (os_is(CHV(p[0]), '/')) return (n >= 2 && os_is(CHV(p[1]), '/')) ? (ON_CLS_ABS | ON_CLS_DSLASH) : ON_CLS_ABS;
+  for (i = 0; i < n && !os_is(CHV(p[i]), '/'); i++) if (os_is(CHV(p[i]), ':')) colon = 1;
+  if (!colon) return 0;
+  /* input "./" directly followed by a colon-bearing segment: handled by the essential-dot rule */
+  if (in_n >= 2 && os_is(CHV(in[0]), '.') && os_is(CHV(in[1]), '/')){
+    int c2 = 0; for (i = 2; i < in_n && !os_is(CHV(in[i]), '/'); i++) if (os_is(CHV(in[i]), ':')) c2 = 1;
+    if (c2) return ON_CLS_ESSENTIAL;
+  }
+  return ON_CLS_COLON;
 }
 
 static int on_unspecified;   /* set when the expected path text is outside what C08 pins down */
@@ -62,9 +72,8 @@ static long on_normalize(const CH *t, long n, const os_split_t *s, unsigned mask
     long pn = on_copy(t, s->path_a, s->path_b, tmp, 0, 1, 0), rn;
     int relref = s->sch_a < 0 && !s->has_auth && !(pn > 0 && os_is(CHV(tmp[0]), '/'));
     rn = or_remove_dots(tmp, pn, tmp2, relref);
-    if (relref && on_relative_result_needs_prefix(tmp2, rn, pn)) on_unspecified = 1;
-    if (!s->has_auth && s->sch_a >= 0 && rn >= 2 && os_is(CHV(tmp2[0]), '/') && os_is(CHV(tmp2[1]), '/')) on_unspecified = 1;
-    if (!s->has_auth && s->sch_a < 0 && rn >= 2 && os_is(CHV(tmp2[0]), '/') && os_is(CHV(tmp2[1]), '/')) on_unspecified = 1;
+    if (relref) on_unspecified |= on_classify_relative(tmp, pn, tmp2, rn);
+    if (!s->has_auth && rn >= 2 && os_is(CHV(tmp2[0]), '/') && os_is(CHV(tmp2[1]), '/')) on_unspecified |= ON_CLS_DSLASH;
     o = or_copy(out, o, tmp2, 0, rn);
   } else o = on_copy(t, s->path_a, s->path_b, out, o, 0, 0);
   if (s->q_a >= 0){ out[o++] = '?'; o = on_copy(t, s->q_a, s->q_b, out, o, (mask & ON_QUERY) != 0, 0); }
